@@ -312,3 +312,35 @@ def build_coro(skip=()):
         log('built coroutine driver in %.0fs' % (time.time() - t0))
         prune_builds('coro')
         return d
+
+def build_c09(tier):
+    import gen_c09
+    srcs = [os.path.join(HARNESS, 'gen_c09.py')]
+    h = tree_hash(srcs)
+    d = os.path.join(BUILD, 'c09-%s-%s' % (tier, h))
+    exe = os.path.join(d, 'drv_c09')
+    with Lock(os.path.join(BUILD, 'c09.lock')):
+        if os.path.exists(exe):
+            os.utime(d)
+            return d
+        t0 = time.time()
+        shutil.rmtree(d, ignore_errors=True)
+        n = gen_c09.emit(d, tier)
+        cpps = sorted(f for f in os.listdir(d) if f.endswith('.cpp'))
+        flags = ['-std=c++14', '-O0', '-g1', '-fsanitize=address,undefined', '-fno-sanitize-recover=undefined', '-I' + INCLUDE]
+        res = compile_many([(['g++'] + flags + ['-c', c, '-o', c + '.o'], d) for c in cpps])
+        bad = [(c, r) for c, r in zip(cpps, res) if r[0] != 0]
+        if bad:
+            msg = bad[0][1][1]
+            shutil.rmtree(d, ignore_errors=True)
+            raise BuildError('C09 program family does not compile against the current /repo/include (%s):\n%s' % (bad[0][0], msg[-3000:]))
+        p = subprocess.run(['g++', '-fsanitize=address,undefined'] + [c + '.o' for c in cpps] + ['-o', 'drv_c09'], cwd=d,
+                           stdout=subprocess.PIPE, stderr=subprocess.STDOUT, text=True)
+        if p.returncode != 0:
+            shutil.rmtree(d, ignore_errors=True)
+            raise BuildError(p.stdout[-3000:])
+        for c in cpps:
+            os.unlink(os.path.join(d, c + '.o'))
+        log('built C09 family (%d cases) in %.0fs' % (n, time.time() - t0))
+        prune_builds('c09-%s' % tier)
+        return d
